@@ -19,13 +19,13 @@ import (
 // enumerated completely in both tiers.
 
 type c19Case struct {
-	Kind string `json:"kind"` // vfh | reader | word
-	Desc uint16 `json:"desc"`
-	Size uint64 `json:"size"`
-	H    int    `json:"h"`
-	Word uint32 `json:"word,omitempty"`
-	Frag  bool  `json:"one_byte_source,omitempty"`
-	Reuse bool  `json:"reused_reader,omitempty"`
+	Kind  string `json:"kind"` // vfh | reader | word
+	Desc  uint16 `json:"desc"`
+	Size  uint64 `json:"size"`
+	H     int    `json:"h"`
+	Word  uint32 `json:"word,omitempty"`
+	Frag  bool   `json:"one_byte_source,omitempty"`
+	Reuse bool   `json:"reused_reader,omitempty"`
 }
 
 var c19Reused *lz4.Reader
